@@ -709,6 +709,14 @@ def exact_value(t: Term, ev: OrderEval, alg) -> Any:  # type: ignore[no-untyped-
                     if s_ is None:
                         ra_, rb_ = go(args[0]), go(args[1])
                         s_ = rat_sign(ra_ - rb_, lf, alg)
+                        if s_ is None and getattr(alg, "witness", None) is not None:
+                            # the order type does not order the two operands (a comparison of two curves): decide it *at the witness* - a concrete
+                            # member of the order type. A disagreement found this way is a real counterexample; an agreement proves nothing
+                            # about the rest of the piece (the caller counts it as undecided: `alg.witness_only`)
+                            dv = alg.evaluate(ra_ - rb_, alg.witness)
+                            if dv == dv and abs(dv) > 1e-9:
+                                s_ = NEG if dv < 0 else POS
+                                alg.witness_only = True
                         if s_ is None:
                             raise NotAlgebraic(f"undecided {short}")
                         first_smaller = s_ in (NEG, ZERO)
